@@ -19,6 +19,7 @@ import Mathlib.Tactic.Ring
 import Mathlib.Tactic.FieldSimp
 import Mathlib.Tactic.Positivity
 import Mathlib.Algebra.Order.Field.Rat
+import Mathlib.Algebra.Order.AbsoluteValue.Basic
 
 namespace OdcGeo.C13
 open OdcGeo OdcGeo.C17 OdcGeo.C04
@@ -550,5 +551,186 @@ theorem identity_grid_remarks_nodata (c : Cfg) (G : Gdal) (src buf : Img)
     rw [henc] at hfill
     simp only [outPix, encImg, hv, Option.map_some, henc, if_true, hfill]
   exact ⟨heq.trans hw, hw⟩
+
+/-! ## snapped scale: accumulated drift over the raster -/
+
+/-- **Completeness under drift (snapped scale AND translation).**  Dependencies computed with any
+scale + translation map `A'` are complete for sampling with `A = ~S * D` as long as, everywhere
+on the destination raster, `A'` reaches the image of a point from a point at most a quarter of a
+destination pixel away: `∀ u ∈ [0, dstW] ∃ q, |q| ≤ 1/4 ∧ A'(u + q) = A(u)` (same in `y`).
+`drift_witness` turns the numeric bound `|a - a'|·dstW + |c - c'| ≤ |a'|/4` into this. -/
+theorem deps_complete_of_linear_drift (c : Cfg) (dst src : C12.GBT) (hrel : GridRel c dst src)
+    (hs : src.WF) (hsy : Chain 0 c.sy c.srcH) (hsx : Chain 0 c.sx c.srcW)
+    (hb : (c.S.inv * c.D).b = 0) (hd : (c.S.inv * c.D).d = 0)
+    (ha : (c.S.inv * c.D).a ≠ 0) (he : (c.S.inv * c.D).e ≠ 0)
+    (A' : Aff) (hb' : A'.b = 0) (hd' : A'.d = 0)
+    (hdy : Chain 0 c.dy c.dstH) (hdx : Chain 0 c.dx c.dstW)
+    (hqx : ∀ u : Rat, 0 ≤ u → u ≤ c.dstW → ∃ q, -(1 / 4) ≤ q ∧ q ≤ 1 / 4 ∧
+      A'.a * (u + q) + A'.c = (c.S.inv * c.D).a * u + (c.S.inv * c.D).c)
+    (hqy : ∀ v : Rat, 0 ≤ v → v ≤ c.dstH → ∃ q, -(1 / 4) ≤ q ∧ q ≤ 1 / 4 ∧
+      A'.e * (v + q) + A'.f = (c.S.inv * c.D).e * v + (c.S.inv * c.D).f)
+    (hdeps : ∀ (iy ix : Nat) (l : List (Int × Int)), iy < c.dy.length → ix < c.dx.length →
+      C12.linearDeps dst src A' ((iy : Int), (ix : Int)) = .ok l →
+      ∀ i j : Nat, ((i : Int), (j : Int)) ∈ l → (i, j) ∈ lookupDeps c.deps (iy, ix)) :
+    deps_complete c := by
+  rintro iy ix ⟨dy, dx⟩ ⟨ty, hty, t1, t2⟩ ⟨tx, htx, t3, t4⟩ s hs'
+  simp only at t1 t2 t3 t4
+  set A := c.S.inv * c.D with hA
+  -- the sampled pixel
+  unfold samplePix at hs'
+  simp only [Aff.apply, hb, hd, zero_mul, add_zero, zero_add] at hs'
+  split at hs'
+  swap
+  · simp at hs'
+  next hin =>
+  obtain ⟨p1, p2, p3, p4⟩ := hin
+  simp only [Option.some.injEq] at hs'
+  set px : Rat := A.a * ((dx : Rat) + 1 / 2) + A.c with hpx
+  set py : Rat := A.e * ((dy : Rat) + 1 / 2) + A.f with hpy
+  subst hs'
+  -- the sampled pixel lies in the source image and under its floor
+  have jy0 : 0 ≤ py.floor := Rat.le_floor_iff.2 (by exact_mod_cast p3)
+  have jy1 : py.floor < c.srcH := Rat.floor_lt_iff.2 p4
+  have jx0 : 0 ≤ px.floor := Rat.le_floor_iff.2 (by exact_mod_cast p1)
+  have jx1 : px.floor < c.srcW := Rat.floor_lt_iff.2 p2
+  have fy1 := Rat.floor_le py
+  have fy2 := Rat.lt_floor_add_one py
+  have fx1 := Rat.floor_le px
+  have fx2 := Rat.lt_floor_add_one px
+  push_cast at fy2 fx2
+  -- the source tile holding it
+  obtain ⟨i, hi⟩ := Chain.locate_some hsy jy0 jy1
+  obtain ⟨j, hj⟩ := Chain.locate_some hsx jx0 jx1
+  obtain ⟨sp, hsp, a1, a2⟩ := locate_spec hi
+  obtain ⟨sq, hsq, a3, a4⟩ := locate_spec hj
+  -- points of the destination tile mapping strictly inside the sampled pixel
+  obtain ⟨u', u1, u2, u3, u4⟩ := strict_point_quarter A.a A.c ((dx : Rat) + 1 / 2) px.floor ha fx1 fx2
+  obtain ⟨v', v1, v2, v3, v4⟩ := strict_point_quarter A.e A.f ((dy : Rat) + 1 / 2) py.floor he fy1 fy2
+  have htb := pixBBox_of_rel c dst src hrel iy ix ty tx hty htx
+  have hilt : i < c.sy.length := by
+    rcases Nat.lt_or_ge i c.sy.length with h | h
+    · exact h
+    · rw [List.getElem?_eq_none h] at hsp; cases hsp
+  have hjlt : j < c.sx.length := by
+    rcases Nat.lt_or_ge j c.sx.length with h | h
+    · exact h
+    · rw [List.getElem?_eq_none h] at hsq; cases hsq
+  have c1 : ((tx.1 : Int) : Rat) ≤ (dx : Rat) := by exact_mod_cast t3
+  have c2 : (dx : Rat) + 1 ≤ ((tx.2 : Int) : Rat) := by exact_mod_cast (by omega : dx + 1 ≤ tx.2)
+  have c3 : ((ty.1 : Int) : Rat) ≤ (dy : Rat) := by exact_mod_cast t1
+  have c4 : (dy : Rat) + 1 ≤ ((ty.2 : Int) : Rat) := by exact_mod_cast (by omega : dy + 1 ≤ ty.2)
+  have gx := Chain.get hdx htx
+  have gy := Chain.get hdy hty
+  have g1 : (0 : Rat) ≤ ((tx.1 : Int) : Rat) := by exact_mod_cast gx.1
+  have g2 : ((tx.2 : Int) : Rat) ≤ (c.dstW : Rat) := by exact_mod_cast gx.2.2
+  have g3 : (0 : Rat) ≤ ((ty.1 : Int) : Rat) := by exact_mod_cast gy.1
+  have g4 : ((ty.2 : Int) : Rat) ≤ (c.dstH : Rat) := by exact_mod_cast gy.2.2
+  obtain ⟨qx, qx1, qx2, ex⟩ := hqx u' (by linarith) (by linarith)
+  obtain ⟨qy, qy1, qy2, ey⟩ := hqy v' (by linarith) (by linarith)
+  obtain ⟨l, hl, hmem⟩ := C12.linear_deps_complete dst src hs A' hb' hd' ((iy : Int), (ix : Int)) _ htb
+    ((i : Int), (j : Int))
+    ⟨by simp, by simp only [hrel.sy.count]; exact_mod_cast hilt⟩
+    ⟨by simp, by simp only [hrel.sx.count]; exact_mod_cast hjlt⟩
+    ⟨sp.1, sp.2⟩ ⟨sq.1, sq.2⟩ (hrel.sy.get i sp hsp) (hrel.sx.get j sq hsq)
+    py.floor px.floor ⟨a1, a2⟩ ⟨a3, a4⟩ ⟨jy0, by rw [hrel.ny]; exact jy1⟩ ⟨jx0, by rw [hrel.nx]; exact jx1⟩
+    (u' + qx) (v' + qy)
+    ⟨by simp only; linarith, by simp only; linarith⟩
+    ⟨by simp only; linarith, by simp only; linarith⟩
+    ⟨by rw [ex]; exact u3, by rw [ex]; exact u4⟩ ⟨by rw [ey]; exact v3, by rw [ey]; exact v4⟩
+  have hiy : iy < c.dy.length := by
+    rcases Nat.lt_or_ge iy c.dy.length with h | h
+    · exact h
+    · rw [List.getElem?_eq_none h] at hty; cases hty
+  have hix : ix < c.dx.length := by
+    rcases Nat.lt_or_ge ix c.dx.length with h | h
+    · exact h
+    · rw [List.getElem?_eq_none h] at htx; cases htx
+  exact ⟨(i, j), hdeps iy ix l hiy hix hl i j hmem, ⟨sp, hsp, a1, a2⟩, ⟨sq, hsq, a3, a4⟩⟩
+
+
+
+/-- the accumulated drift of a snapped axis map `u ↦ a'u + c'` against the true `u ↦ au + c` over
+a raster of `W` destination pixels: if `|a - a'|·W + |c - c'| ≤ |a'|/4` then every image point
+is reached from within a quarter of a destination pixel -/
+theorem drift_witness (a a' c c' W : Rat) (ha' : a' ≠ 0)
+    (hbound : |a - a'| * W + |c - c'| ≤ |a'| / 4) :
+    ∀ u : Rat, 0 ≤ u → u ≤ W → ∃ q, -(1 / 4) ≤ q ∧ q ≤ 1 / 4 ∧ a' * (u + q) + c' = a * u + c := by
+  intro u hu0 huW
+  have hpos : 0 < |a'| := abs_pos.2 ha'
+  have hnum : |(a - a') * u + (c - c')| ≤ |a'| / 4 := by
+    calc |(a - a') * u + (c - c')| ≤ |(a - a') * u| + |c - c'| := abs_add_le _ _
+      _ = |a - a'| * u + |c - c'| := by rw [abs_mul, abs_of_nonneg hu0]
+      _ ≤ |a - a'| * W + |c - c'| := by
+          have := mul_le_mul_of_nonneg_left huW (abs_nonneg (a - a'))
+          linarith
+      _ ≤ |a'| / 4 := hbound
+  have hq : |((a - a') * u + (c - c')) / a'| ≤ 1 / 4 := by
+    rw [abs_div, div_le_iff₀ hpos]
+    linarith
+  obtain ⟨q1, q2⟩ := abs_le.1 hq
+  refine ⟨((a - a') * u + (c - c')) / a', q1, q2, ?_⟩
+  field_simp
+  ring
+
+/-- **Snapped scale and translation, numeric form** (the statement asked for in terms of the raster
+shape and the tolerances): if per axis `|a - a'|·(destination size) + |c - c'| ≤ |a'|/4`, the
+dependency map computed with the snapped `A'` is complete.  With `snap_affine`'s tolerances
+(`|a - a'| < 1e-6` absolute for `|a| ≥ 1`, `|c - c'| < 1e-3`) and unit scale this holds for every
+raster of up to 249 000 destination pixels per side; `scale_snap_cex` (K23) shows it failing, on
+the model and on the real code, at 2^21 pixels. -/
+theorem deps_complete_of_linear_tol (c : Cfg) (dst src : C12.GBT) (hrel : GridRel c dst src)
+    (hs : src.WF) (hsy : Chain 0 c.sy c.srcH) (hsx : Chain 0 c.sx c.srcW)
+    (hb : (c.S.inv * c.D).b = 0) (hd : (c.S.inv * c.D).d = 0)
+    (ha : (c.S.inv * c.D).a ≠ 0) (he : (c.S.inv * c.D).e ≠ 0)
+    (A' : Aff) (hb' : A'.b = 0) (hd' : A'.d = 0) (ha' : A'.a ≠ 0) (he' : A'.e ≠ 0)
+    (hdy : Chain 0 c.dy c.dstH) (hdx : Chain 0 c.dx c.dstW)
+    (hx : |(c.S.inv * c.D).a - A'.a| * (c.dstW : Rat) + |(c.S.inv * c.D).c - A'.c| ≤ |A'.a| / 4)
+    (hy : |(c.S.inv * c.D).e - A'.e| * (c.dstH : Rat) + |(c.S.inv * c.D).f - A'.f| ≤ |A'.e| / 4)
+    (hdeps : ∀ (iy ix : Nat) (l : List (Int × Int)), iy < c.dy.length → ix < c.dx.length →
+      C12.linearDeps dst src A' ((iy : Int), (ix : Int)) = .ok l →
+      ∀ i j : Nat, ((i : Int), (j : Int)) ∈ l → (i, j) ∈ lookupDeps c.deps (iy, ix)) :
+    deps_complete c :=
+  deps_complete_of_linear_drift c dst src hrel hs hsy hsx hb hd ha he A' hb' hd' hdy hdx
+    (drift_witness _ _ _ _ _ ha' hx) (drift_witness _ _ _ _ _ he' hy) hdeps
+
+/-! ### known finding K23: the 1e-6 scale snap on a huge raster (witness replayed on the real code by
+`harness/c13.py`, `scale_snap_probe`) -/
+
+def k23S : Aff := Aff.id
+/-- destination pixels larger than the source pixels by 2^-21 (4.8e-7 < `stol`) -/
+def k23D : Aff := ⟨1 + 1 / 2097152, 0, 0, 0, 1, 0⟩
+def k23src : C12.GBT := ⟨1, 2097152 + 16, ⟨.var [1], .var [2097152, 16]⟩⟩
+def k23dst : C12.GBT := ⟨1, 2097152 + 8, ⟨.reg 1 1, .reg (2097152 + 8) 2097152⟩⟩
+def k23deps : List ((Int × Int) × List (Int × Int)) := [((0, 0), [(0, 0)]), ((0, 1), [(0, 1)])]
+
+def k23Cfg : Cfg :=
+  { variant := Variant.repaired, kind := .int, srcH := 1, srcW := 2097152 + 16, S := k23S, dstH := 1,
+    dstW := 2097152 + 8, D := k23D, sy := chunksTiling [1], sx := chunksTiling [2097152, 16],
+    dy := regularTiling 1 1, dx := [(0, 2097152), (2097152, 2097152 + 8)], deps := depsOfC12 k23deps,
+    srcNd := some (.num (-1)), dstNd := some (.num (-1)) }
+
+/-- `_check_linear` snaps the scale `1 + 2^-21` to `1` … -/
+theorem k23_checkLinear :
+    C12.checkLinear k23S k23D (1 / 1000) (1 / 1000000) (1 / 100000000) (1 / 10000000000)
+      = .ok (some Aff.id) := by
+  decide +kernel
+
+/-- … and `_grid_intersect_linear` with the snapped map wires destination chunk `(0, 0)` (columns
+`0 … 2^21 - 1`) to source chunk `(0, 0)` only. -/
+theorem k23_gridIntersect : C12.gridIntersectLinear k23dst k23src Aff.id = .ok k23deps := by
+  decide +kernel
+
+/-- **K23 (as found).**  The last pixel of destination chunk `(0, 0)`, column `2^21 - 1`, has drifted
+by `(2^21 - 1/2)·2^-21 ≈ 1` pixel: it samples source column `2^21`, which lies in source chunk
+`(0, 1)`; the dependency map from the snapped transform does not list it: fill in the dask result,
+data in the in-memory result, `deps_complete` false.  (`|a - a'|·dstW = 1 > 1/4`: outside the
+hypothesis of `deps_complete_of_linear_tol`.) -/
+theorem scale_snap_cex :
+    samplePix (k23Cfg.S.inv * k23Cfg.D) 1 (2097152 + 16) (0, 2097151) = some (0, 2097152) ∧
+    daskResult k23Cfg cexGdal (full 1 (2097152 + 16) (.num 5)) (0, 2097151) = some (.num (-1)) ∧
+    wholeResult k23Cfg cexGdal (full 1 (2097152 + 16) (.num 5)) (full 1 (2097152 + 8) (.num 77))
+      (0, 2097151) = some (.num 5) := by
+  refine ⟨by decide +kernel, by decide +kernel, by decide +kernel⟩
+
 
 end OdcGeo.C13
